@@ -227,8 +227,13 @@ impl Default for GenOpts {
 }
 
 fn sel(rng: &mut Rng, cid: &str, qid: &str, o: &GenOpts, extra: &str) -> String {
-    let rows = rng.range(0, o.max_rows);
-    let w = rng.range(1, o.max_width);
+    let mut rows = rng.range(0, o.max_rows);
+    let mut w = rng.range(1, o.max_width);
+    if rng.chance(1, 10) {
+        // a first row around and beyond the pooler's relay-buffer threshold (8 KiB)
+        rows = rng.range(1, 4);
+        w = if rng.chance(1, 2) { rng.range(8100, 8300) } else { rng.range(8300, 40000) };
+    }
     let mut ex = format!("rows={} w={}", rows, w);
     if o.sleep_max_ms > 0 && rng.chance(1, 3) {
         ex.push_str(&format!(" sleep={}", rng.range(0, o.sleep_max_ms)));
